@@ -258,7 +258,7 @@ def table(rng, size="small", nmodels=None, family=None):
                               icode=res["icode"], resname=res["resname"], name=nm, alt=al, occ=oc,
                               x=xyz[0], y=xyz[1], z=xyz[2], het=res["het"], entity=res["entity"]))
     # ---- further models
-    numbering = rng.choice(["1..k", "1..k", "1..k", "offset", "shuffled"])
+    numbering = rng.choice(["1..k", "1..k", "1..k", "offset", "shuffled", "from-0-shuffled"])
     if nmodels == 1:
         mnums = [1] if rng.random() < 0.85 else [rng.choice([2, 7, 20])]
     elif numbering == "1..k":
@@ -266,6 +266,9 @@ def table(rng, size="small", nmodels=None, family=None):
     elif numbering == "offset":
         s = rng.choice([0, 2, 5, 11])
         mnums = [s + 2 * i for i in range(nmodels)]
+    elif numbering == "from-0-shuffled":
+        mnums = list(range(0, nmodels))           # 0 is a model number like any other, and need not come first
+        rng.shuffle(mnums)
     else:
         mnums = list(range(1, nmodels + 1))
         rng.shuffle(mnums)
